@@ -142,9 +142,53 @@ _PURE_METHODS = {'len', 'is_empty', 'is_ok', 'is_err', 'is_some', 'is_none', 'cl
                  'to_owned', 'as_bytes', 'get', 'contains_key', 'first', 'last', 'iter', 'keys', 'values', 'count', 'unwrap_or', 'unwrap_or_default', 'map', 'copied', 'cloned'}
 
 
+_ARITH = {'Add', 'Sub', 'Mul', 'Div', 'Rem', 'Shl', 'Shr', '+', '-', '*', '/', '%', '<<', '>>'}
+
+
+def pure_expr(e, fns=None, is_new_helper=None, depth=0):
+    """No assignment, no control transfer, no indexing, only calls known to have no effect (and, through helpers the
+    oracle vocabulary does not know, only such bodies): evaluating it changes nothing."""
+    for n in walk(e):
+        k = n.get('k')
+        if k in ('Assign', 'AssignOp', 'Ret', 'Break', 'Continue', 'Loop', 'Try', 'Closure', 'Index'):
+            return False
+        if k == 'MacroCall' and n.get('name') not in LOG_MACROS and n.get('name') not in ('format', 'concat', 'stringify'):
+            return False
+        if k in ('Call', 'MethodCall'):
+            cp = norm_path(callee_path(n) or '')
+            if k == 'Call' and n['f'].get('dk', '').startswith('Ctor'):
+                continue
+            tgt = (fns or {}).get(cp)
+            if tgt is not None and 'hir' in tgt and is_new_helper is not None and is_new_helper(cp) and depth < 2 and pure_expr(tgt['hir'], fns, is_new_helper, depth + 1):
+                continue
+            if k == 'MethodCall' and n.get('name') in _PURE_METHODS and not (tgt is not None):
+                continue
+            return False
+    return True
+
+
+def log_stmt(e, fns=None, is_new_helper=None):
+    """A statement that only decides what to log: a logging macro, or a pure `if`/`match` over comparisons whose leaves are
+    logging macros. Its value is discarded and it has no effect, so readers skip it."""
+    if is_log(e):
+        return True
+    e = peel(e) if isinstance(e, dict) else e
+    if not isinstance(e, dict) or e.get('k') not in ('If', 'Match', 'Block'):
+        return False
+    if e.get('ty') not in (None, '()'):
+        return False
+    has_log = False
+    for n in walk(e):
+        if is_log(n):
+            has_log = True
+        if n.get('k') in ('Binary', 'Bin') and n.get('op') in _ARITH:
+            return False
+    return has_log and pure_expr(e, fns, is_new_helper)
+
+
 def log_only_locals(body, fns=None, is_new_helper=None):
-    """Ids of `let x = <pure expression>` locals that are only ever mentioned inside logging macros: neither the
-    local nor its initialiser can influence behaviour, so readers skip the statement."""
+    """Ids of `let x = <pure expression>` locals that are only ever mentioned inside logging macros (or statements that
+    only decide what to log): neither the local nor its initialiser can influence behaviour, so readers skip the statement."""
     uses = {}
     lets = {}
 
@@ -154,6 +198,8 @@ def log_only_locals(body, fns=None, is_new_helper=None):
         k = n.get('k')
         if k == 'MacroCall' and n.get('name') in LOG_MACROS:
             in_log = True
+        if k in ('Semi', 'ExprStmt') and not in_log and isinstance(n.get('e'), dict) and log_stmt(n['e'], fns, is_new_helper):
+            in_log = True
         if k == 'Local':
             uses.setdefault(n['id'], []).append(in_log)
         if k == 'Let' and n.get('pat', {}).get('k') == 'Bind' and n.get('init') is not None and n.get('els') is None:
@@ -161,29 +207,10 @@ def log_only_locals(body, fns=None, is_new_helper=None):
         for _, c in children(n):
             rec(c, in_log)
     rec(body, False)
-
-    def pure(e, depth=0):
-        for n in walk(e):
-            k = n.get('k')
-            if k in ('Assign', 'AssignOp', 'Ret', 'Break', 'Continue', 'Loop', 'Try', 'Closure', 'Index'):
-                return False
-            if k == 'MacroCall' and n.get('name') not in LOG_MACROS and n.get('name') not in ('format', 'concat', 'stringify'):
-                return False
-            if k in ('Call', 'MethodCall'):
-                cp = norm_path(callee_path(n) or '')
-                if k == 'Call' and n['f'].get('dk', '').startswith('Ctor'):
-                    continue
-                tgt = (fns or {}).get(cp)
-                if tgt is not None and 'hir' in tgt and is_new_helper is not None and is_new_helper(cp) and depth < 2 and pure(tgt['hir'], depth + 1):
-                    continue
-                if k == 'MethodCall' and n.get('name') in _PURE_METHODS and not (tgt is not None):
-                    continue
-                return False
-        return True
     out = set()
     for lid, init in lets.items():
         us = uses.get(lid, [])
-        if all(us) and pure(init):
+        if all(us) and pure_expr(init, fns, is_new_helper):
             out.add(lid)
     return out
 
